@@ -21,6 +21,7 @@ mod core;
 mod auto;
 mod logcap;
 mod prn;
+mod proto;
 mod rx;
 mod sched;
 mod srch;
